@@ -9,7 +9,6 @@ NOT_APPLICABLE = {
     "C25": "rounding results are numerical; value-level",
     "C26": "truncation of roots/powers is numerical; value-level",
     "C27": "parse/print inverse is a round-trip equality over all strings/values; value-level",
-    "C37": "an iff between a constraint's mathematical meaning and a predicate over amounts/id sets is value-level",
     "C38": "soundness of analyser output against all executions on all ledger states is semantic",
     "C42": "proportionality and per-epoch emission bounds are arithmetic over histories; the stake-sorted index is value-level",
     "C46": "semantic equivalence of two WASM programs (before/after instrumentation)",
@@ -254,3 +253,9 @@ claim("C14", "variant-arm agreement on the overlay's read/list paths (root consu
       "partition never yields NotFound; the listing of a Reset partition never touches the root while a Delta partition merges root and overlay "
       "through OverlayingIterator; commit into the overlay matches every update variant. Equality of listings/cursors with 'base + commits' is "
       "not decided.")
+
+claim("C37", "variant-arm agreement (every constraint kind has a rejecting path) + rejection liveness + must-pass-through in the general constraint",
+      "Decides the enforcement-liveness clause only: validate_fungible / validate_non_fungible match every ManifestResourceConstraint kind with "
+      "no catch-all and every kind's arm contains a rejecting path; every ResourceConstraint(s)Error variant is produced; the general constraint "
+      "returns Ok only past the lower-bound, upper-bound and allow-list validations and checks required ids. The iff itself (each comparison "
+      "being the right one, normalisation, declared-valid implies satisfiable) is value-level and not decided.")
